@@ -777,6 +777,10 @@ class Data(Container, NetCDFHDF5, Files, core.Data):
         if old is None:
             return
 
+        # Include the files that are still needed to realise the data,
+        # whether or not they were recorded when the data were created
+        old.update(self.get_filenames())
+
         # Find any compression ancillary data variables
         ancils = []
         compression = self.get_compression_type()
